@@ -19,7 +19,10 @@ func (f *Fosite) WriteAuthorizeResponse(ctx context.Context, rw http.ResponseWri
 	wh.Set("Cache-Control", "no-store")
 	wh.Set("Pragma", "no-cache")
 
-	redir := ar.GetRedirectURI()
+	// Work on a copy: the URL belongs to the request, and a request hydrated from a pushed authorization
+	// request shares it with the stored one (and with any concurrent request using the same request_uri).
+	redirectURI := *ar.GetRedirectURI()
+	redir := &redirectURI
 	switch rm := ar.GetResponseMode(); rm {
 	case ResponseModeFormPost:
 		//form_post
